@@ -15,7 +15,7 @@ theorem C01_live_le_size (base : Nat) (h : History) (hn : h.NoSetSize)
     (i : Nat) (c : Cfg) (p : Pool) (n : Nat)
     (hc : ((World.init base).run h).cfgs[i]? = some c) (hp : ((World.init base).run h).pools[i]? = some p)
     (hsz : c.size0 = .fin n) : p.live ≤ n := by
-  have hg := (World.reachable goodC_invariant base h hn).inv i c p hc hp n hsz
+  have hg := goodFin base h hn i c p n hc hp hsz
   obtain ⟨v, _, hs⟩ := hg.slot
   have := live_le_held _ hg.phase
   omega
@@ -26,10 +26,19 @@ theorem C01_running_le_size (base : Nat) (h : History) (hn : h.NoSetSize)
     (i : Nat) (c : Cfg) (p : Pool) (n : Nat)
     (hc : ((World.init base).run h).cfgs[i]? = some c) (hp : ((World.init base).run h).pools[i]? = some p)
     (hsz : c.size0 = .fin n) : p.running.length + p.cancelledR.length ≤ n := by
-  have hg := (World.reachable goodC_invariant base h hn).inv i c p hc hp n hsz
+  have hg := goodFin base h hn i c p n hc hp hsz
   obtain ⟨v, _, hs⟩ := hg.slot
   have := inflight_le_held p hg.reg
   omega
+
+/-- **C01 (default = unbounded).** A pool constructed without a size is never full: its semaphore stays unbounded
+and nobody ever has to wait for room. -/
+theorem C01_unbounded_never_full (base : Nat) (h : History) (hn : h.NoSetSize)
+    (i : Nat) (c : Cfg) (p : Pool)
+    (hc : ((World.init base).run h).cfgs[i]? = some c) (hp : ((World.init base).run h).pools[i]? = some p)
+    (hsz : c.size0 = .inf) : p.isFull = false ∧ p.sem.waiters = [] := by
+  obtain ⟨hv, hw⟩ := (goodInf base h hn i c p hc hp hsz).slot
+  exact ⟨by simp [Pool.isFull, Sem.locked, hv, hw, Cap.isZero], hw⟩
 
 /-- size 0: nothing may ever start -/
 theorem C01_zero_starts_nothing (base : Nat) (h : History) (hn : h.NoSetSize) (i : Nat) (c : Cfg) (p : Pool)
